@@ -36,8 +36,10 @@ ASSUMPTIONS = ["quantified variables have user types (the property's quantifier 
                "initial values of static fluents are constants (anything else is C23's subject)",
                "the order of the variables of a rebuilt Exists comes out of a Python set: binder lists are compared sorted",
                "objects are identified by name (one declared type per name)",
-               "generated cases on which the type checker raises OverflowError while nodes are rebuilt (D-C15c: float('inf') "
-               "bounds against integers beyond the float range) are skipped; that defect is C15's"]
+               "node construction type-checks every rebuilt node; generated cases on which the TYPE CHECKER raises during "
+               "simplify (OverflowError = D-C15c; ZeroDivisionError when a non-constant numerator of bounded type is divided by "
+               "a divisor that simplified to the constant 0) are skipped: interval arithmetic is C15's model. The model keeps "
+               "such a Div node; dividing two CONSTANTS by zero is modelled (zero-div)"]
 MODELLED = ["modelled by hand (tied by correspondence): Simplifier.walk_* (all operators), ExpressionManager n-ary/Not "
             "normalisations, Substituter on {variable: value}, FreeVarsOracle, Problem.get_static_fluents/initial_value as tables; "
             "Python int/Fraction arithmetic as Int/Rat; OrderedDict as duplicate-free list"]
@@ -248,18 +250,16 @@ def cases(rng, tier):
 
 def usable(payload):
     """the constructors accept the expression (the grammar occasionally relates unrelated user types) and the TYPE
-    CHECKER does not raise OverflowError while the simplifier rebuilds nodes (float('inf') bounds against integers beyond
-    the float range: D-C15c, reported under C15; no such case remains once that is repaired)"""
+    CHECKER does not raise while the simplifier rebuilds nodes (OverflowError: float('inf') bounds against integers
+    beyond the float range, D-C15c; ZeroDivisionError: `e / c` whose divisor simplified to the constant 0 under a
+    bounded numerator — whether such a node can be built is decided by the type checker's interval arithmetic, C15)"""
     try:
         ctx, problem, expr = build(payload)
     except Exception:   # noqa  (UPTypeError; OverflowError / ZeroDivisionError out of the type checker)
         return False
-    try:
-        Simplifier(ctx.env, problem).simplify(expr)
-    except OverflowError:
+    k, r = run_simplify(ctx, problem, expr)
+    if k == "err" and r.startswith("typecheck:"):
         return False
-    except Exception:   # noqa
-        pass
     return True
 
 
@@ -309,23 +309,32 @@ def const_py(ctx, c):
     return ctx.obj(c[1], c[2])
 
 
+def _from_type_checker(ex):
+    import traceback
+    return any(fr.filename.endswith("type_checker.py") for fr in traceback.extract_tb(ex.__traceback__))
+
+
 def run_simplify(ctx, problem, expr):
-    """-> ("ok", FNode) | ("err", tag)"""
+    """-> ("ok", FNode) | ("err", tag).  Exceptions raised by the TYPE CHECKER while the simplifier rebuilds a node
+    (ExpressionManager.create_node type-checks every node: OverflowError = D-C15c, ZeroDivisionError for a divisor whose
+    type is the singleton 0 under a bounded numerator) are tagged `typecheck:` — interval arithmetic is C15's model."""
     try:
         return "ok", Simplifier(ctx.env, problem).simplify(expr)
-    except ZeroDivisionError:
-        return "err", "zero-div"
-    except AssertionError:
-        return "err", "zero-div" if _has_zero_div(expr) else "assertion"
-    except KeyError as ex:
-        return "err", "ifun-undefined" if "interpreted function" in str(ex) else "other:KeyError"
+    except (ZeroDivisionError, OverflowError, AssertionError, KeyError) as ex:
+        if _from_type_checker(ex):
+            return "err", "typecheck:" + type(ex).__name__
+        if isinstance(ex, (ZeroDivisionError, AssertionError)):
+            return "err", "zero-div" if isinstance(ex, ZeroDivisionError) or "walk_div" in _frames(ex) else "assertion"
+        if isinstance(ex, KeyError) and "interpreted function" in str(ex):
+            return "err", "ifun-undefined"
+        return "err", "other:" + type(ex).__name__
     except Exception as ex:   # noqa
         return "err", "other:" + type(ex).__name__
 
 
-def _has_zero_div(expr):
-    # AssertionError is the documented reaction of walk_div to a zero REAL divisor; anything else is reported as such
-    return True
+def _frames(ex):
+    import traceback
+    return [fr.name for fr in traceback.extract_tb(ex.__traceback__)]
 
 
 def impl(payload):
@@ -480,7 +489,7 @@ def oracle(payload):
     e = payload[5]
     k, r = run_simplify(ctx, problem, expr)
     if k == "err":
-        if r in ("zero-div", "ifun-undefined"):
+        if r in ("zero-div", "ifun-undefined", "typecheck:ZeroDivisionError"):
             for I, rho in interps(payload, 4):
                 if pyden.den(e, I, rho) is not None:
                     return f"simplify raised {r} on an expression that has a value"
